@@ -185,6 +185,15 @@ def _run_configs(rng, res, bump, configs, weakly, mode, sig, conds, keys, via, s
             csp = es.get('base_csp', getattr(ci, 'base_csp', None))
             klist = list(bbx.conditionals.keys())
             if csp is not None:
+                from pysmt.shortcuts import get_free_variables, And as _PAnd
+                names = {v.symbol_name() for v in get_free_variables(_PAnd(list(csp)))} if csp else set()
+                falsifiable = [kk for kk, i_ in zip(klist, range(len(conds))) if base.fal[i_]]
+                if not all(('eta_%s' % kk) in names for kk in falsifiable):
+                    # the impacts are not called eta_<key> in this constraint system: the monitor cannot be
+                    # attached (a verdict would be about a symbol the library does not use)
+                    bump('constraint_system_monitor_not_attached')
+                    csp = None
+            if csp is not None:
                 n_ = len(conds)
                 hi = n_ + 2
                 import itertools
